@@ -39,7 +39,11 @@ META = {
 }
 
 SHAPES = [[3], [5], [6], [2, 3], [3, 4], [4, 1], [1, 4], [4, 4], [3, 3], [2, 3, 2], [3, 1, 2], [2, 2, 2], [2, 1, 3, 2], [2, 2, 2, 2],
-          [1, 1], [1], [2, 2, 3]]
+          [1, 1], [1], [2, 2, 3], [7], [8, 3]]
+# structured gradients (QUANTIFIER AUDIT): they make the factor matrices exactly zero / exactly diagonal with a non-ascending
+# diagonal / rank one (+-a vectors, constant) / with a dead coordinate, leave whole blocks of a blocked parameter with a PRESENT
+# but exactly zero gradient, or give the gradient a non-default memory layout
+PATTERNS = ["zero", "single_entry", "diag", "pm_rank1", "const", "dead_row", "dead_last", "layout"]
 IGNORED = [[], [], [], [], [0], [1], [2], [0, 2], [1, 3], [0, 1], [0, 1, 2, 3]]
 
 # budgets for the MEASURED residuals (binary64): fixed after measuring seeds 0,1,2 of both tiers (largest values seen over
@@ -47,8 +51,9 @@ IGNORED = [[], [], [], [], [0], [1], [2], [0, 2], [1, 3], [0, 1], [0, 1, 2, 3]]
 BUDGET = {"orth_cols": 2e-13, "orth_rows": 2e-13, "offdiag_rel": 2e-13}
 # loose numeric sanity bound (measurement) of the low-precision pairings against the float64/float64 run after 6 steps
 # (largest values seen over 6 seeds: float32 anywhere 7.5e-7, bfloat16 factors 2.7e-3, bfloat16 parameters 2.2e-2)
-SANITY_PARAM = {"f64": 1e-12, "f32": 2e-5, "bf16": 0.3}
-SANITY_FACTOR = {"f64": 1e-12, "f32": 2e-5, "bf16": 0.05}
+# float16 (6 seeds): parameters 3.6e-3, factors 3.2e-5
+SANITY_PARAM = {"f64": 1e-12, "f32": 2e-5, "bf16": 0.3, "f16": 0.05}
+SANITY_FACTOR = {"f64": 1e-12, "f32": 2e-5, "bf16": 0.05, "f16": 1e-3}
 
 
 def _torch():
@@ -62,10 +67,10 @@ def soapify(rng, c):
     c["kind"] = "soap"
     c["amort"] = rng.choice(["eigh", "qr"])
     c.pop("expmult", None)
-    c["qr_iters"] = rng.choice([1, 1, 2, 3, 5])
-    c["qr_tol"] = rng.choice([1e-5, 0.0, 0.25, 1e-12])
+    c["qr_iters"] = rng.choice([0, 1, 1, 2, 3, 5, 20])                 # 0: the loop is never entered (sorted estimate is returned)
+    c["qr_tol"] = rng.choice([1e-5, 0.0, 0.25, 1e-12, math.inf])       # inf: `error > tolerance` is false at once
     b1 = c["betas"][0]
-    c["betas"] = (b1, rng.choice([1.0, 1.0, 0.75, 0.5, 0.96875]))
+    c["betas"] = (b1, rng.choice([1.0, 1.0, 0.75, 0.5, 0.96875, 0.984375]))
     c["ignored"] = rng.choice(IGNORED)
     # the constructor accepts a root override only without ignored dims, and start >= frequency (C17)
     c["override"] = 0 if c["ignored"] else rng.choice([0, 0, 1, 2, 3, [2, 1, 4, 3], [1, 2]])
@@ -77,7 +82,7 @@ def soapify(rng, c):
     # conditioning guard of the 1e-9 tie: the direction is divided by (V/bc2 + eps)^(1/root), at most eps^(-1/root)
     ov = c["override"]
     roots = [r for r in (ov if isinstance(ov, list) else [ov]) if r != 0] + [2]
-    c["eps"] = rng.choice([1e-2, 1e-3, 1e-4])
+    c["eps"] = rng.choice([1e-2, 1e-3, 1e-4, 1e-8])
     if min(roots) == 1:
         c["eps"] = max(c["eps"], 1e-3)
     return c
@@ -91,8 +96,168 @@ def gen_case(rng, thorough=False):
         ov = g.get("overrides")
         if ov and "max_dim" in ov:
             ov["max_dim"] = rng.choice([2, 1024])
-    # make the history long enough for a second refresh (non-zero estimate) and a plain step in between
+        if ov and "eps" in ov:
+            ov["eps"] = max(ov["eps"], 1e-3)
+    # gradient magnitude regimes (exact powers of two)
+    case["gscale"] = rng.choice([1.0, 1.0, 1.0, 1.0, 1.0, 2.0 ** -17, 2.0 ** -8])
+    # structured gradients on some / all steps
+    for s in case["steps"]:
+        s.pop("zero", None)
+        s.pop("gpattern", None)
+    if rng.random() < 0.35:
+        kind = rng.choice(PATTERNS)
+        n = len(case["steps"])
+        mode = rng.choice(["all", "prefix", "one"])
+        idx = range(n) if mode == "all" else (range(rng.randint(1, max(1, n - 2))) if mode == "prefix" else [rng.randrange(n)])
+        for i in idx:
+            case["steps"][i]["gpattern"] = kind
     return case
+
+
+def make_case(rng, cfg, group_shapes, presence, overrides=None, **extra):
+    """A targeted case: presence[s][gi][pi]."""
+    groups = [{"cfg": cfg, "shapes": group_shapes[0]}] + [{"overrides": (overrides or {}), "shapes": sh} for sh in group_shapes[1:]]
+    steps = [{"present": [list(r) for r in row], "gseed": rng.randrange(1 << 30), "edits": None} for row in presence]
+    case = {"groups": groups, "init_seed": rng.randrange(1 << 30), "steps": steps, "presence_kinds": [], "gscale": 1.0}
+    case.update(extra)
+    return case
+
+
+def targeted_cases(rng):
+    """QUANTIFIER AUDIT: input classes the property names or plainly allows and a random draw seldom produces; every run."""
+    out = []
+
+    def cfg(**kw):
+        c = soapify(rng, c01.gen_cfg(rng))
+        c.update({"max_dim": 1024, "merge": False, "ignored": [], "override": 0, "eps": 1e-3})
+        c.update(kw)
+        return c
+
+    for amort, f in (("eigh", 1), ("qr", 2), ("qr", 1), ("eigh", 2)):
+        # two equal-shaped parameters whose gradients alternate: a refresh only computes the bases of the blocks with a gradient
+        out.append(("alternating-twins", make_case(rng, cfg(amort=amort, freq=f, start=f), [[[3, 4], [3, 4]]], [[[s % 2 == 0, s % 2 == 1]] for s in range(8)])))
+    for amort in ("eigh", "qr"):
+        # twin groups with identical hyperparameters (no overrides), different presence: the groups' step counters and schedules diverge
+        out.append(("twin-groups", make_case(rng, cfg(amort=amort, freq=2, start=2), [[[3, 4], [2, 3]], [[3, 4], [2, 3]]],
+                                             [[[True, True], [s >= 3, s % 2 == 1]] for s in range(8)])))
+        # a block that gets its first gradient after the other blocks already have a basis
+        out.append(("late-block", make_case(rng, cfg(amort=amort, freq=1, start=rng.choice([1, 2])), [[[2, 3], [4], [2, 2, 2]]],
+                                            [[[True, s >= 3, s >= 5]] for s in range(8)])))
+        # exactly zero (present) gradients until after the first refresh: the refresh sees an exactly zero factor matrix
+        c = make_case(rng, cfg(amort=amort, freq=2, start=2, betas=(0.5, 0.75)), [[[3, 3], [2, 3, 2]]], [[[True, True]] for s in range(7)])
+        for s in range(3):
+            c["steps"][s]["gpattern"] = "zero"
+        out.append(("zero-until-refresh", c))
+        # exactly diagonal factor with a NON-ascending diagonal (identity short cut, sticky flag), dense afterwards
+        c = make_case(rng, cfg(amort=amort, freq=1, start=1), [[[3, 3], [4, 2]]], [[[True, True]] for s in range(6)])
+        for s in range(2):
+            c["steps"][s]["gpattern"] = "diag"
+        out.append(("diag-then-dense", c))
+        # tiny gradients: factor entries ~1e-10 (exact-zero tests vs tolerance tests)
+        out.append(("tiny-gradients", make_case(rng, cfg(amort=amort, freq=1, start=1, betas=(0.0, 0.75)), [[[3, 4], [2, 3, 2]]], [[[True, True]] for s in range(5)],
+                                                gscale=2.0 ** -17)))
+    for (f, st) in ((2, 3), (3, 4), (3, 5)):
+        # start step not a multiple of the frequency
+        out.append(("start-not-multiple", make_case(rng, cfg(amort=rng.choice(["eigh", "qr"]), freq=f, start=st), [[[3, 4], [5]]], [[[True, True]] for s in range(10)])))
+    for k in (2, 4, 6):
+        # stop point (save, fresh optimizer, load) before the first refresh / between refreshes / right after one
+        out.append(("resume", make_case(rng, cfg(amort=rng.choice(["eigh", "qr"]), freq=3, start=3, betas=(0.5, 0.75), biascorr=True), [[[3, 4], [2, 2, 2]]],
+                                        [[[True, s != 4]] for s in range(8)], resume_at=k)))
+    for kind, md in (("pm_rank1", 1024), ("const", 1024), ("single_entry", 2), ("dead_row", 2), ("dead_last", 1024), ("layout", 1024), ("layout", 3)):
+        c = make_case(rng, cfg(amort=rng.choice(["eigh", "qr"]), freq=1, start=1, max_dim=md), [[[3, 4], [2, 3, 2], [6]]], [[[True, True, True]] for s in range(5)])
+        for st_ in c["steps"]:
+            st_["gpattern"] = kind
+        out.append((f"pattern-{kind}", c))
+    return out
+
+
+# ---------------------------------------------------------------------------------------------- structured gradients, stop points
+
+def apply_pattern(kind, g, scale):
+    torch = _torch()
+    if g.dim() == 0:
+        return g * 0.0 if kind == "zero" else g
+    if kind == "layout":                          # same values, non-default strides
+        if g.dim() >= 2:
+            rev = tuple(reversed(range(g.dim())))
+            return g.permute(rev).contiguous().permute(rev)
+        big = torch.zeros(2 * g.shape[0], dtype=g.dtype)
+        big[::2] = g
+        return big[::2]
+    if kind == "dead_last":
+        out = g.clone()
+        out[..., -1] = 0.0
+        return out
+    d0 = g.shape[0]
+    M = g.reshape(d0, -1)
+    R = M.shape[1]
+    out = torch.zeros_like(M)
+    if kind == "zero":
+        pass
+    elif kind == "single_entry":
+        out[d0 - 1, 0] = 1.5 * scale
+    elif kind == "diag":
+        k = min(d0, R)
+        for i in range(k):
+            out[i, i] = (k - i) * 0.5 * scale * (-1.0) ** i
+    elif kind == "pm_rank1":
+        u = torch.where(M[:, 0] < 0, -1.0, 1.0).to(M.dtype)
+        v = torch.where(M[0, :] < 0, -1.0, 1.0).to(M.dtype)
+        out = 0.5 * scale * torch.outer(u, v)
+    elif kind == "const":
+        out = out + 0.5 * scale
+    elif kind == "dead_row":
+        out = M.clone()
+        out[0, :] = 0.0
+    else:
+        raise ValueError(kind)
+    return out.reshape(g.shape)
+
+
+_ORIG = {}
+
+
+def _set_grads(case, params, step):
+    _ORIG["set_grads"](case, params, step)
+    kind = step.get("gpattern")
+    if kind:
+        for ps in params:
+            for p in ps:
+                if p.grad is not None:
+                    p.grad = apply_pattern(kind, p.grad, case.get("gscale", 1.0))
+
+
+def _run_case(case, opt=None, params=None, start_step=0, on_step=None):
+    k = case.get("resume_at")
+    if k is None or opt is not None:
+        return _ORIG["run_case"](case, opt=opt, params=params, start_step=start_step, on_step=on_step)
+    import copy
+    torch = _torch()
+    first = dict(case)
+    first["steps"] = case["steps"][:k]
+    first["resume_at"] = None
+    recs1, opt1, params1 = _ORIG["run_case"](first)
+    names = lambda ps: [(f"g{gi}.p{pi}", p) for gi, g in enumerate(ps) for pi, p in enumerate(g)]  # noqa
+    sd = copy.deepcopy(opt1.distributed_state_dict(key_to_param=iter(names(params1))))
+    params2 = [[torch.nn.Parameter(p.detach().clone()) for p in g] for g in params1]
+    opt2 = optrun.build_optimizer(case, params2)
+    opt2.load_distributed_state_dict(state_dict=sd, key_to_param=iter(names(params2)))
+    recs2, opt2, params2 = _ORIG["run_case"](case, opt=opt2, params=params2, start_step=k)
+    return recs1 + recs2, opt2, params2
+
+
+class patched_optrun:
+    """optrun.set_grads / optrun.run_case with the structured-gradient and stop-point extensions of this check (optrun.py itself
+    is not edited; forked pool workers inherit the patched module)."""
+
+    def __enter__(self):
+        if not _ORIG:
+            _ORIG["set_grads"], _ORIG["run_case"] = optrun.set_grads, optrun.run_case
+        optrun.set_grads, optrun.run_case = _set_grads, _run_case
+        return self
+
+    def __exit__(self, *a):
+        optrun.set_grads, optrun.run_case = _ORIG["set_grads"], _ORIG["run_case"]
 
 
 # ---------------------------------------------------------------------------------------------- (b) measurement
@@ -111,7 +276,7 @@ def measure_worker(case):
         recs, _, _ = optrun.run_case(case)
     except Exception as e:  # noqa
         return {"error": f"{type(e).__name__}: {e}"[:200]}
-    out = {"refresh": [], "sched": [], "stored_ne_answer": [], "failed_calls": 0, "step_errors": 0}
+    out = {"refresh": [], "sched": [], "stored_ne_answer": [], "failed_calls": 0, "step_errors": 0, "mixed_basis_steps": 0}
     for si, row in enumerate(recs):
         for gi, r in enumerate(row):
             if r["error"]:
@@ -122,6 +287,9 @@ def measure_worker(case):
             start = optrun.BIG_START if (isinstance(start, float) and math.isinf(start)) else int(start)
             t_after = r["after"]["t"]
             per_block, _ = optrun.split_calls(r)
+            has = [any(any(x != 0.0 for x in row) for row in b["inv"][0]) for b in r["after"]["blocks"] if b["inv"]]
+            if any(has) and not all(has):
+                out["mixed_basis_steps"] += 1          # some block of the group has a basis, another one not yet
             for bi, (bb, ba, g, calls) in enumerate(zip(r["before"]["blocks"], r["after"]["blocks"], r["grads"], per_block)):
                 if not bb["inv"]:
                     continue
@@ -138,7 +306,10 @@ def measure_worker(case):
                     n = Q.shape[0]
                     eye = torch.eye(n, dtype=torch.float64)
                     eig_path = cfg["amort"] == "eigh" or not bool(E.any()) or c["isdiag"] or n == 1
+                    dg = torch.diagonal(A).tolist() if n else []
                     m = {"n": n, "method": cfg["amort"], "eig_path": bool(eig_path), "isdiag": bool(c["isdiag"]),
+                         "zero_factor": bool(n and not A.any()), "nonascending_diag": bool(c["isdiag"] and n > 1 and any(a > b for a, b in zip(dg, dg[1:]))),
+                         "nonzero_estimate": bool(E.any()),
                          "rank": int(torch.linalg.matrix_rank(A).item()) if n else 0,
                          "orth_cols": float((Q.T @ Q - eye).abs().max().item()) if n else 0.0,
                          "orth_rows": float((Q @ Q.T - eye).abs().max().item()) if n else 0.0,
@@ -165,24 +336,24 @@ def sched_file(tuples):
 # ---------------------------------------------------------------------------------------------- (c) dtype pairings
 
 DT = ["f32", "f64", "bf16"]
-COQDT = {"f32": "F32", "f64": "F64", "bf16": "BF16"}
+COQDT = {"f32": "F32", "f64": "F64", "bf16": "BF16", "f16": "F16"}
 
 
 def tdtype(tag):
     torch = _torch()
-    return {"f64": torch.float64, "f32": torch.float32, "bf16": torch.bfloat16}[tag]
+    return {"f64": torch.float64, "f32": torch.float32, "bf16": torch.bfloat16, "f16": torch.float16}[tag]
 
 
 def tag_of(dtype) -> str:
     torch = _torch()
-    return {torch.float64: "f64", torch.float32: "f32", torch.bfloat16: "bf16"}.get(dtype, "other")
+    return {torch.float64: "f64", torch.float32: "f32", torch.bfloat16: "bf16", torch.float16: "f16"}.get(dtype, "other")
 
 
 def probe_kernels():
     """Platform facts, probed on torch directly (independent of /repo): is there an eigh / qr kernel for the dtype?"""
     torch = _torch()
     res = {"eigh": {}, "qr": {}}
-    for tag in DT:
+    for tag in DT + ["f16"]:
         a = torch.eye(2, dtype=tdtype(tag))
         for name, fn in (("eigh", torch.linalg.eigh), ("qr", torch.linalg.qr)):
             try:
@@ -203,12 +374,13 @@ def classify_exc(e) -> str:
 
 
 def dtype_worker(job):
-    """One pairing: SOAP on two parameters (order 2 and order 3), 6 steps, refreshes on the schedule (freq, start)."""
+    """One pairing: SOAP on the job's parameters, 6 steps, refreshes on the schedule (freq, start).  Variant "rich": orders 1 and 4,
+    an ignored dimension, Adam grafting, momentum, beta2 = 1, small gradients, one step with present but exactly zero gradients."""
     torch = _torch()
     logging.disable(logging.CRITICAL)
     import distributed_shampoo.utils.shampoo_preconditioner_list as pl
     from distributed_shampoo.distributed_shampoo import DistributedShampoo
-    from distributed_shampoo.shampoo_types import EigenvalueCorrectedShampooPreconditionerConfig
+    from distributed_shampoo.shampoo_types import AdamGraftingConfig, EigenvalueCorrectedShampooPreconditionerConfig
     from distributed_shampoo.utils.shampoo_preconditioner_list import SHAMPOO
     from matrix_functions_types import EighEigenvectorConfig, QRConfig
     pdt, fdt, method = job["pdt"], job["fdt"], job["method"]
@@ -217,9 +389,11 @@ def dtype_worker(job):
     res = {"job": job, "ctor_error": None, "steps": [], "calls": [], "final": None}
     try:
         opt = DistributedShampoo(
-            params, lr=0.0078125, betas=(0.5, 0.75), epsilon=1e-3, precondition_frequency=job["freq"], start_preconditioning_step=job["start"],
-            preconditioner_dtype=tdtype(fdt), grafting_config=None, use_merge_dims=False,
+            params, lr=0.0078125, betas=(0.5, job.get("beta2", 0.75)), epsilon=1e-3, precondition_frequency=job["freq"], start_preconditioning_step=job["start"],
+            preconditioner_dtype=tdtype(fdt), use_merge_dims=False, momentum=job.get("momentum", 0.0),
+            grafting_config=AdamGraftingConfig(beta2=0.75, epsilon=1e-3) if job.get("graft") == "adam" else None,
             preconditioner_config=EigenvalueCorrectedShampooPreconditionerConfig(
+                ignored_dims=list(job.get("ignored", [])),
                 amortized_computation_config=QRConfig(max_iterations=job.get("qr_iters", 1)) if method == "qr" else EighEigenvectorConfig()))
     except Exception as e:  # noqa
         res["ctor_error"] = f"{type(e).__name__}: {e}"[:200]
@@ -246,7 +420,10 @@ def dtype_worker(job):
         for t in range(1, job["nsteps"] + 1):
             cur["step"] = t
             for p in params:
-                p.grad = optrun.dyadic(gen, p.shape).to(p.dtype)
+                g = optrun.dyadic(gen, p.shape) * job.get("gscale", 1.0)
+                if t in job.get("zero_steps", []):
+                    g = g * 0.0
+                p.grad = g.to(p.dtype)
             outcome = "ok"
             try:
                 opt.step()
@@ -266,18 +443,35 @@ def dtype_worker(job):
     finally:
         pl.matrix_eigenvectors = orig
     res["final"] = [p.detach().to(torch.float64).reshape(-1).tolist() for p in params]
+    res["finite"] = all(bool(torch.isfinite(p).all()) for p in params)
     return res
 
 
+RICH = {"variant": "rich", "shapes": [[2], [2, 2, 2, 2]], "ignored": [1], "graft": "adam", "momentum": 0.5, "beta2": 1.0, "gscale": 2.0 ** -6, "zero_steps": [3]}
+
+
 def dtype_jobs(seed_base):
-    jobs = []
+    """batch -> jobs.  Batch "bf16": {f32,f64,bf16}^2 x {eigh,QR} x two schedules (+ the rich variant); batch "f16": float16 as
+    parameter dtype with every factor dtype, float16 factors with the eigh method (QR on float16 factors: see not_exercised)."""
+    def job(method, pdt, fdt, freq, start, **kw):
+        j = {"method": method, "pdt": pdt, "fdt": fdt, "freq": freq, "start": start, "nsteps": 6, "variant": "plain",
+             "shapes": [[3, 4], [2, 3, 2]], "seed": seed_base, "qr_iters": 1 if freq == 1 else 3}
+        j.update(kw)
+        return j
+    b, f = [], []
     for method in ("eigh", "qr"):
         for pdt in DT:
             for fdt in DT:
                 for (freq, start) in ((1, 1), (2, 2)):
-                    jobs.append({"method": method, "pdt": pdt, "fdt": fdt, "freq": freq, "start": start, "nsteps": 6,
-                                 "shapes": [[3, 4], [2, 3, 2]], "seed": seed_base, "qr_iters": 1 if freq == 1 else 3})
-    return jobs
+                    b.append(job(method, pdt, fdt, freq, start))
+                b.append(job(method, pdt, fdt, 1, 1, **RICH))
+        for pdt, fdt in (("f16", "f32"), ("f16", "f64"), ("f16", "f16"), ("f32", "f16"), ("f64", "f16")):
+            if method == "qr" and fdt == "f16":
+                continue
+            for (freq, start) in ((1, 1), (2, 2)):
+                f.append(job(method, pdt, fdt, freq, start))
+        f.append(job(method, "f16", "f32", 1, 1, **RICH))
+    return {"bf16": b, "f16": f}
 
 
 def coq_dt(tag):
@@ -287,7 +481,7 @@ def coq_dt(tag):
 def dtype_file(results, kernels):
     def kfun(name):
         k = kernels[name]
-        return f"(fun d => match d with F32 => {coq_bool(k['f32'])} | F64 => {coq_bool(k['f64'])} | BF16 => {coq_bool(k['bf16'])} end)"
+        return f"(fun d => match d with F32 => {coq_bool(k['f32'])} | F64 => {coq_bool(k['f64'])} | BF16 => {coq_bool(k['bf16'])} | F16 => {coq_bool(k['f16'])} end)"
     body = ["From Coq Require Import ZArith List Bool String.", "From Shampoo Require Import Show Eigenvectors SoapDefs.",
             "Import ListNotations.", f"Definition eigh_k : dtype -> bool := {kfun('eigh')}.", f"Definition qr_k : dtype -> bool := {kfun('qr')}."]
     index = []
@@ -336,6 +530,11 @@ def classify(case) -> str | None:
 
 
 def run(ck: Check) -> None:
+    with patched_optrun():
+        _run(ck)
+
+
+def _run(ck: Check) -> None:
     ck.coq_props(extra_targets=["exec/RunOpt.vo"])
     common.assert_repo_imports()
     thorough = ck.tier == "thorough"
@@ -349,6 +548,9 @@ def run(ck: Check) -> None:
             cases.append(json.loads(f.read_text())["case"])
     ncorpus = len(cases)
     cases += [gen_case(ck.rng, thorough) for _ in range(ncases)]
+    tcases = targeted_cases(ck.rng)
+    ttag = {len(cases) + i: t for i, (t, _) in enumerate(tcases)}
+    cases += [c for _, c in tcases]
     results, per_case = c01.evaluate(ck, cases, tag="c03")
 
     nsteps = nontrivial = ctor_err = 0
@@ -356,6 +558,7 @@ def run(ck: Check) -> None:
             "groups": {}, "refresh_steps": 0, "plain_steps_at_or_after_start": 0, "failed_oracle_calls": 0, "steps_with_step_error": 0,
             "momentum_nonzero": 0, "weight_decay_nonzero": 0}
     failures = []
+    step_errors = []
 
     def bump(d, k):
         d[str(k)] = d.get(str(k), 0) + 1
@@ -382,6 +585,7 @@ def run(ck: Check) -> None:
         for row in res["rows"]:
             if row["error"]:
                 hist["steps_with_step_error"] += 1
+                step_errors.append((ci, row))
         for row, v in pc:
             nsteps += 1
             hist["failed_oracle_calls"] += row["failed_calls"]
@@ -410,6 +614,13 @@ def run(ck: Check) -> None:
                       {"kind": "property-fails", "case": small, "failing_step": f[0] if f else row["step"], "group": f[1] if f else row["group"],
                        "components": comp, "original_case_index": ci, "n_failing_steps": len(failures),
                        "predicate": "RunOpt.step_ok (one Optimizer.group_step, SOAP branch, from the observed state, tol 1e-9)"})
+
+    # a step of a SOAP run that raises although no matrix routine failed is not "Adam in the stored basis" either
+    for ci, row in step_errors[:3]:
+        if row["failed_calls"] == 0:
+            ck.report(None, f"SOAP step {row['step']} of group {row['group']} raised without any failed eigenvector computation: {row['error'][:160]}",
+                      {"kind": "property-fails", "case": cases[ci], "failing_step": row["step"], "group": row["group"], "error": row["error"],
+                       "predicate": "the step completes (no matrix routine failed)"})
 
     # ---------------- (b) measurement + schedule checker
     with mp.get_context("fork").Pool(16) as pool:
@@ -460,29 +671,31 @@ def run(ck: Check) -> None:
 
     # ---------------- (c) dtype pairings
     kernels = probe_kernels()
-    jobs = dtype_jobs(ck.rng.randrange(1 << 30))
+    batches = dtype_jobs(ck.rng.randrange(1 << 30))
+    jobs = [j for b in ("bf16", "f16") for j in batches[b]]
     with mp.get_context("fork").Pool(16) as pool:
         dres = pool.map(dtype_worker, jobs, chunksize=1)
     src, index = dtype_file(dres, kernels)
     dverd = ck.eval_coq({"c03_dtype": src})["c03_dtype"]
     assert len(dverd) == len(index)
+    verdict_of = dict(zip(index, dverd))
     ref = {}
     for r in dres:
         j = r["job"]
         if j["pdt"] == "f64" and j["fdt"] == "f64" and r["final"] is not None:
-            ref[(j["method"], j["freq"])] = r["final"]
+            ref[(j["method"], j["freq"], j["variant"])] = r["final"]
     pair_table = []
     dtype_evals = 0
     for ri, r in enumerate(dres):
         j = r["job"]
-        row = {"method": j["method"], "param": j["pdt"], "precond": j["fdt"], "schedule": [j["freq"], j["start"]], "ctor_error": r["ctor_error"]}
+        row = {"method": j["method"], "param": j["pdt"], "precond": j["fdt"], "schedule": [j["freq"], j["start"]], "variant": j["variant"], "ctor_error": r["ctor_error"]}
         if r["ctor_error"]:
             row["verdict"] = "not accepted by the constructor"
             pair_table.append(row)
             ck.report(None, f"constructor rejected the dtype pairing {j['pdt']} x {j['fdt']} ({j['method']}): {r['ctor_error']}",
                       {"kind": "dtype-pairing", "job": j}, no_failing_input=False)
             continue
-        v = dverd[index.index(ri)]
+        v = verdict_of[ri]
         dtype_evals += len(v)
         failed = [c for c in r["calls"] if c["exc"] is not None]
         raised = [s for s in r["steps"] if s["outcome"] != "ok"]
@@ -493,9 +706,12 @@ def run(ck: Check) -> None:
                     "tag_model_agrees": "F" not in v})
         # loose numeric sanity (measurement)
         dev = None
-        if r["final"] is not None and (j["method"], j["freq"]) in ref and not raised:
-            dev = max((abs(a - b) for pa, pb in zip(r["final"], ref[(j["method"], j["freq"])]) for a, b in zip(pa, pb)), default=0.0)
+        rk = (j["method"], j["freq"], j["variant"])
+        if r["final"] is not None and rk in ref and not raised:
+            dev = max((abs(a - b) for pa, pb in zip(r["final"], ref[rk]) for a, b in zip(pa, pb)), default=0.0)
             row["max_dev_vs_f64_run"] = dev
+            if not r.get("finite", True):
+                dev = math.inf
         pair_table.append(row)
         sig = pairing_signature(j, r["calls"])
         rp = {"kind": "dtype-pairing", "job": j, "steps": row["steps"], "failures": [{k: c[k] for k in ("step", "A", "est", "exc_class", "msg")} for c in failed][:4]}
@@ -509,6 +725,65 @@ def run(ck: Check) -> None:
         elif dev is not None and not (dev <= max(SANITY_PARAM[j["pdt"]], SANITY_FACTOR[j["fdt"]])):
             ck.report("C03:measured:lowprec-sanity", f"MEASURED deviation {dev:.3g} of the {j['pdt']} x {j['fdt']} ({j['method']}) run from the float64 run exceeds the sanity bound",
                       {**rp, "deviation": dev})
+
+    # ---------------- quantifier audit: measured counts of the input classes the property names or plainly allows (this run)
+    gen = [(ci, c) for ci, c in enumerate(cases) if ci >= ncorpus and "error" not in results[ci]]
+    cfg0 = lambda c: c["groups"][0]["cfg"]  # noqa
+    cnt = lambda pred: sum(1 for ci, c in gen if pred(ci, c))  # noqa
+    pats = lambda c: {s.get("gpattern") for s in c["steps"] if s.get("gpattern")}  # noqa
+    shapes = [sh for _, c in gen for g in c["groups"] for sh in g["shapes"]]
+    audit = {
+        "method eigh / QR": [cnt(lambda i, c: cfg0(c)["amort"] == "eigh"), cnt(lambda i, c: cfg0(c)["amort"] == "qr")],
+        "QR max_iterations 0 / 1 / 2-5 / 20": [cnt(lambda i, c, k=k: cfg0(c)["amort"] == "qr" and cfg0(c)["qr_iters"] in k) for k in ((0,), (1,), (2, 3, 5), (20,))],
+        "QR tolerance 0 / tiny / 0.25 / inf": [cnt(lambda i, c, k=k: cfg0(c)["amort"] == "qr" and cfg0(c)["qr_tol"] in k) for k in ((0.0,), (1e-12, 1e-5), (0.25,), (math.inf,))],
+        "QR refresh answers with a non-zero estimate (orthogonal-iteration path)": sum(1 for r in refresh if not r["eig_path"]),
+        "beta2 = 1 / < 1": [cnt(lambda i, c: cfg0(c)["betas"][1] == 1.0), cnt(lambda i, c: cfg0(c)["betas"][1] < 1.0)],
+        "epsilon 1e-2 / 1e-3 / 1e-4 / 1e-8": [cnt(lambda i, c, e=e: cfg0(c)["eps"] == e) for e in (1e-2, 1e-3, 1e-4, 1e-8)],
+        "inverse-root override int / per-order list": [cnt(lambda i, c: isinstance(cfg0(c)["override"], int) and cfg0(c)["override"] != 0), cnt(lambda i, c: isinstance(cfg0(c)["override"], list))],
+        "ignored dims: proper subset / all": [cnt(lambda i, c: 0 < len(cfg0(c)["ignored"]) < 4), cnt(lambda i, c: len(cfg0(c)["ignored"]) == 4)],
+        "grafting none / sgd / adagrad / rmsprop / adam": [cnt(lambda i, c, g=g: cfg0(c)["graft"] == g) for g in (None, "sgd", "adagrad", "rmsprop", "adam")],
+        "momentum / Nesterov / dampening": [cnt(lambda i, c: cfg0(c)["momentum"] != 0.0), cnt(lambda i, c: cfg0(c)["momentum"] != 0.0 and cfg0(c)["nesterov"]), cnt(lambda i, c: cfg0(c)["momentum"] != 0.0 and cfg0(c)["dampening"] != 0.0)],
+        "weight decay coupled / decoupled": [cnt(lambda i, c: cfg0(c)["wd"] and not cfg0(c)["decoupled"]), cnt(lambda i, c: cfg0(c)["wd"] and cfg0(c)["decoupled"])],
+        "beta1 = 0 / > 0; bias correction off": [cnt(lambda i, c: cfg0(c)["betas"][0] == 0.0), cnt(lambda i, c: cfg0(c)["betas"][0] != 0.0), cnt(lambda i, c: not cfg0(c)["biascorr"])],
+        "parameter shapes of order 1 / 2 / 3 / 4": [sum(1 for sh in shapes if len(sh) == k) for k in (1, 2, 3, 4)],
+        "shapes with a size-1 dimension (1x1 factors)": sum(1 for sh in shapes if 1 in sh),
+        "blocked parameters (max_preconditioner_dim <= 3) / merged dims": [cnt(lambda i, c: cfg0(c)["max_dim"] <= 3), cnt(lambda i, c: cfg0(c)["merge"])],
+        "rank-deficient factor at a refresh / exactly zero factor / exactly diagonal factor (n > 1) / diagonal and non-ascending": [
+            sum(1 for r in refresh if r["rank"] < r["n"]), sum(1 for r in refresh if r["zero_factor"]),
+            sum(1 for r in refresh if r["isdiag"] and r["n"] > 1), sum(1 for r in refresh if r["nonascending_diag"])],
+        "some gradient absent at some step / whole group absent at some step": [cnt(lambda i, c: any(not all(row) for s in c["steps"] for row in s["present"])),
+                                                                                 cnt(lambda i, c: any(not any(row) for s in c["steps"] for row in s["present"]))],
+        "equal-shaped parameters with alternating gradients": sum(1 for t in ttag.values() if t == "alternating-twins"),
+        "block whose first gradient comes after the other blocks' first refresh (targeted) / group-steps where some block has a basis and another not": [
+            sum(1 for t in ttag.values() if t == "late-block"), sum(m.get("mixed_basis_steps", 0) for m in meas if "error" not in m)],
+        "two parameter groups / twin groups with identical hyperparameters": [cnt(lambda i, c: len(c["groups"]) == 2), sum(1 for t in ttag.values() if t == "twin-groups")],
+        "present gradient exactly zero on a whole parameter (some step)": cnt(lambda i, c: "zero" in pats(c)),
+        "present gradient exactly zero on some blocks of a blocked parameter": cnt(lambda i, c: cfg0(c)["max_dim"] <= 3 and pats(c) & {"single_entry", "dead_row", "diag"}),
+        "zero gradients until after the first refresh": sum(1 for t in ttag.values() if t == "zero-until-refresh"),
+        "tiny gradients 2^-17 / 2^-8": [cnt(lambda i, c: c.get("gscale") == 2.0 ** -17), cnt(lambda i, c: c.get("gscale") == 2.0 ** -8)],
+        "structured gradients: " + " / ".join(PATTERNS): [cnt(lambda i, c, k=k: k in pats(c)) for k in PATTERNS],
+        "gradients with non-default memory layout": cnt(lambda i, c: "layout" in pats(c)),
+        "start step not a multiple of the frequency / start = inf / frequency 1": [
+            cnt(lambda i, c: isinstance(cfg0(c)["start"], int) and cfg0(c)["start"] > 0 and cfg0(c)["start"] % cfg0(c)["freq"] != 0),
+            cnt(lambda i, c: isinstance(cfg0(c)["start"], float)), cnt(lambda i, c: cfg0(c)["freq"] == 1)],
+        "stop point (save, fresh optimizer, load) before / between / right after a refresh": sum(1 for t in ttag.values() if t == "resume"),
+        "lr / weight decay / momentum edited between steps": cnt(lambda i, c: any(s.get("edits") for s in c["steps"])),
+        "cases run as a later call in an already used worker process (module-level state)": max(0, len(gen) - 16),
+        "dtype pairing runs (parameter x preconditioner dtype -> runs)": {f"{a} x {b}": sum(1 for r in dres if r["job"]["pdt"] == a and r["job"]["fdt"] == b)
+                                                                          for a in DT + ["f16"] for b in DT + ["f16"] if any(r["job"]["pdt"] == a and r["job"]["fdt"] == b for r in dres)},
+        "dtype runs with ignored dim + Adam grafting + momentum + beta2 = 1 + small gradients + a zero-gradient step": sum(1 for r in dres if r["job"]["variant"] == "rich"),
+    }
+    not_exercised = [
+        "value-level tie (1e-9) for dtypes other than float64: other pairings are tied by dtype tags, exception classes and a loose bound against the float64 run",
+        "QR method with float16 preconditioner_dtype: same platform limit as F11 (no Half geqrf kernel; probed and recorded under dtype_pairings.platform_kernels), not run",
+        "results that overflow / underflow the storage dtype (gradients are bounded by 2, epsilon is chosen representable in float16)",
+        "factor matrices larger than 16 x 16 and boundary sizes in bytes (blocking / buffers: C05, C14)",
+        "histories longer than 10 steps",
+        "failing or non-finite answers of eigh / qr (fault protocol: C13) other than the platform's missing half-precision kernels",
+        "EighEigenvectorConfig(retry_double_precision=False) and eigen_decomp_offload_device",
+        "distributed execution (C06-C08), PT2 compilation (C18)",
+        "stop points at every step of every history (C09); here: three targeted stop points per run",
+    ]
 
     ck.coverage.update({
         "evaluations": nsteps + len(sched) + dtype_evals,
@@ -524,6 +799,7 @@ def run(ck: Check) -> None:
                         "stored_equals_oracle_answer": len(stored_ne) == 0, "failed_oracle_calls": failed_calls},
         "schedule_checker": {"block_steps": len(sched), "changed": sum(1 for s in sched if s["changed"]), "violations": len(bad_sched)},
         "dtype_pairings": {"platform_kernels": kernels, "runs": len(dres), "table": pair_table, "sanity_bound": {"by_parameter_dtype": SANITY_PARAM, "by_preconditioner_dtype": SANITY_FACTOR}},
+        "quantifier_audit": audit, "not_exercised": not_exercised, "targeted_cases": len(ttag),
         "exhaustive": False,
     })
     ck.assumptions += ["value tie: binary64 parameters and preconditioner_dtype only; oracle answers recorded from the implementation's own matrix_eigenvectors",
